@@ -156,6 +156,10 @@ func genTraces(rt *rapid.T) tracesCase {
 	if some("ehi") {
 		add("ehi", 2, w.To-1-r64(rt, 0, min64(w.To-w.From-2, 5*nsSec), "ehiOff"), w.From+1, w.To-1)
 	}
+	if m, ok := w.middleDay(); ok {
+		// a trace that exists only on a middle day of a window touching three or more UTC days
+		add("mid", 8, m+r64(rt, 0, 3600, "midOff")*nsSec, w.From+1, w.To-1)
+	}
 	if some("tfb") {
 		add("tfb", 3, int64(dayOf(w.From)-1)*nsDay-1-r64(rt, 0, 2*nsDay, "tfb"), 1, w.From-1)
 	}
@@ -423,6 +427,9 @@ func predTraces(c tracesCase, o *evid.Obs) error {
 				return fmt.Errorf("%s misses %s, which lies inside the window\n%s", ctx, what, sqlDump(stmts))
 			}
 			o.Tag("found-inside")
+			if sp.Tag == "mid" || strings.HasSuffix(sp.Tag, "-mid") {
+				o.Tag("middle-day-only:found")
+			}
 			in0 = in0 || sp.Trace == 0 || portions
 		case mustNot(sp):
 			if shown[sp.Tag] {
